@@ -172,7 +172,7 @@ def main():
     print("checks:", len(checks), "not_applicable:", len(na))
 
 NA = {}
-HOOK_COMMITS = ["979c0a1", "95de7f2", "9fafd20", "2176eb6", "0dbd7aa", "76fa500"]
+HOOK_COMMITS = ["979c0a1", "95de7f2", "9fafd20", "2176eb6", "0dbd7aa", "76fa500", "bb0fe5d"]
 ENGINES = [
  {"name": "world-det", "path": "harness/sim + harness/props", "kind_free_text": "deterministic simulated world around real swap services (chains, Lightning ledger, wallets, bus, virtual timers, crash injection at the node boundary) with online/offline monitors", "serves_properties": ["C01","C03","C04","C05","C06","C07","C08","C09","C10","C11","C12","C13","C15","C16","C17","C21","C23","C26"]},
  {"name": "world-real", "path": "harness/sim + harness/props (race build)", "kind_free_text": "real watchers/retransmitters with concurrent stimuli under the Go race detector and goroutine-dump lock-cycle analysis", "serves_properties": ["C18","C19","C20","C22"]},
